@@ -189,6 +189,15 @@ def build_replay(prop, unit, oid, recs, res, work, seed, replay_dir, all_obligat
                 fails2, ev2, _ = run_driver(exe, "search", "*", seed)
                 extra["inputs_evaluated_whole_unit"] = ev2
                 fails = fails2
+            # a recorded finding of the unchanged tree is not evidence for THIS failure; prefer a witness of the failing function
+            try:
+                known = json.load(open(os.path.join(VERIF, "known_findings.json"))).get("findings", [])
+            except (OSError, ValueError):
+                known = []
+            is_known = lambda w: any(k.get("property") == prop and k.get("unit", unit) == unit and k.get("obligation") == "%s::%s" % (w.get("fn", "?"), w.get("clause", "oracle")) for k in known)
+            fails = [w for w in fails if not is_known(w)]
+            same = [w for w in fails if w.get("fn") and (w["fn"] == f or w["fn"].endswith(f) or f.endswith(w["fn"]))]
+            fails = same or fails
             if fails:
                 w = fails[0]
                 wit = {"fn": w.get("fn"), "input": w.get("input"), "observed": w.get("observed"), "expected": w.get("expected"), "clause": w.get("clause")}
